@@ -198,7 +198,7 @@ CHECKS = {
         "design_ref": "DESIGN.md §5 C15",
     },
     "C16": {
-        "level": "model_checking", "shards": 5, "deadline_quick": 100, "deadline_thorough": 1500,
+        "level": "model_checking", "shards": 7, "deadline_quick": 100, "deadline_thorough": 1500,
         "engine": "E-WORLD",
         "technique": "explicit-state model checking of the implementation: BFS by replay around one real node (gossipsub, floodsub; map and time-cached blacklist) with the blacklisting call tried at every position of the peer's lifecycle",
         "rule": WORLD_RULE,
